@@ -64,6 +64,22 @@ func init() {
 				dev := tierPick(tier, 2, 3)
 				fams := allDocFamilies(sc, func(x *engine.Exec, c *DocCase) { c02Body(x, c, full, false) })
 				inv := allDocFamilies(docScope{Nodes: tierPick(tier, 2, 3), UBJTypes: 4, JSONTok: tierPick(tier, 2, 3), JSONAtoms: 1, NumStride: tierPick(tier, 80, 20), Ctx: tierPick(tier, 2, 4), ScStride: tierPick(tier, 6, 2)}, func(x *engine.Exec, c *DocCase) { c02Body(x, c, full, true) })
+				drop := func(fs []engine.Family, names ...string) []engine.Family {
+					var out []engine.Family
+				next:
+					for _, f := range fs {
+						for _, n := range names {
+							if f.Name == n {
+								continue next
+							}
+						}
+						out = append(out, f)
+					}
+					return out
+				}
+				// the boundary-literal family adds nothing for chunking; long special-length documents are not edited
+				fams = drop(fams, "json-int-boundaries")
+				inv = drop(inv, "json-int-boundaries", "ubj-marker-lengths", "cbor-break-lengths")
 				for i := range inv {
 					inv[i].Name += "-edited"
 				}
@@ -112,6 +128,10 @@ func c02Body(x *engine.Exec, c *DocCase, full int, edited bool) {
 	if edited {
 		chunks = chooseChunksLight(x, len(doc))
 		entry = 2 * x.Choose(2)
+	} else if len(doc) > 64 && x.Tier != "thorough" {
+		// long documents (deep nesting, marker-valued lengths): whole, every single cut, single bytes
+		chunks = chooseChunksLight(x, len(doc))
+		entry = x.Choose(4)
 	} else {
 		chunks = chooseChunks(x, len(doc), full)
 		entry = x.Choose(4)
